@@ -116,6 +116,7 @@ def run(tier, replay=None):
         envs = [("plain", {}, False), ("perturb85+bigenv", {"MALLOC_PERTURB_": "85", "PAD": "x" * 60000}, False), ("perturb170", {"MALLOC_PERTURB_": "170"}, have_setarch),
                 ("mmap-everything", {"GLIBC_TUNABLES": "glibc.malloc.mmap_threshold=0", "MALLOC_MMAP_THRESHOLD_": "0"}, False),
                 ("top-pad", {"MALLOC_TOP_PAD_": "1048576", "MALLOC_ARENA_MAX": "1", "TZ": "Pacific/Kiritimati", "HOME": "/nonexistent", "COLUMNS": "7"}, False)]
+        envs.append(("posixly-correct", {"POSIXLY_CORRECT": "1", "GETOPT_COMPATIBLE": "1", "TMPDIR": "/nonexistent", "TERM": "dumb", "LINES": "1", "IFS": ":", "CDPATH": "/tmp"}, False))
         gl = vlib.grouping_locale()
         chk.set("locale_with_digit_grouping", bool(gl))
         if gl:
